@@ -114,3 +114,19 @@ Proof.
   exists text, ds, u', (i_type i'). subst path. split; [exact Hf|split; [exact Ep|]].
   eapply every_run_passes_through; [apply merge_dropins_nodup; eapply parse_nodup; exact Ep|exact Hc].
 Qed.
+
+(* ---- C15 / C13 for drop-ins: the history of a key in the merged unit is its history in the main file followed by its histories in the
+   drop-ins, in merge order (all drop-ins loadable) ---- *)
+Fixpoint dropin_values (ds : list str) (sec key : str) : list str :=
+  match ds with
+  | [] => []
+  | d :: r => (match parse_unit d with Some du => values_raw du sec key | None => [] end) ++ dropin_values r sec key
+  end.
+
+Theorem merged_history ds : forall u sec key, Forall (fun d => parse_unit d <> None) ds ->
+  values_raw (fst (merge_dropins u ds)) sec key = values_raw u sec key ++ dropin_values ds sec key.
+Proof.
+  induction ds as [|d r IH]; intros u sec key H; cbn [merge_dropins dropin_values fst]; [rewrite app_nil_r; reflexivity|].
+  inversion H as [|? ? H1 H2]; subst. destruct (parse_unit d) as [du|] eqn:E; [|congruence].
+  rewrite IH by exact H2. rewrite (Proofs.C15.dropin_history u du sec key (parse_nodup _ _ E)). rewrite <- app_assoc. reflexivity.
+Qed.
